@@ -245,6 +245,17 @@ def prove(prop_id: str, prop_modules: list[str], timeout: int = 1800) -> dict:
         # a theorem in a module that did not compile is not discharged even if it has no
         # error of its own only when it depends on a failed one; we cannot tell, so we count
         # only the theorems with errors as failed and report build_ok = False.
+    recheck = None
+    if ok and os.environ.get("VERIF_TIER") == "thorough":
+        # independent re-check of the compiled modules (the toolchain's leanchecker)
+        try:
+            p = subprocess.run(["lake", "env", "leanchecker", *prop_modules], cwd=LEAN,
+                               capture_output=True, text=True, timeout=timeout)
+            recheck = {"cmd": "lake env leanchecker " + " ".join(prop_modules), "exit": p.returncode}
+            if p.returncode != 0:
+                failed["<leanchecker>"] = (p.stdout + p.stderr)[-400:]
+        except subprocess.TimeoutExpired:
+            recheck = {"cmd": "leanchecker", "exit": "timeout (not a verdict)"}
     all_files = sorted({d for f in files for d in lean_deps(f)})
     hits = forbidden_hits(all_files)
     for h in hits:
@@ -258,6 +269,7 @@ def prove(prop_id: str, prop_modules: list[str], timeout: int = 1800) -> dict:
         "log": log,
         "build_ok": ok,
         "files": all_files,
+        "leanchecker": recheck,
     }
 
 
@@ -331,6 +343,8 @@ class Check:
         self.coverage["checker_cmd"] = checker_cmd
         self.coverage.setdefault("theorems", [])
         self.coverage["theorems"] += res["obligations"]
+        if res.get("leanchecker") is not None:
+            self.coverage["leanchecker"] = res["leanchecker"]
         ax = sorted({a for v in res["axioms"].values() for a in v})
         self.coverage["axioms_reported"] = sorted(set(self.coverage.get("axioms_reported", [])) | set(ax))
         for name, why in res["failed"].items():
